@@ -40,7 +40,8 @@ KidsAt(st, i) ==
   IF i = 0 THEN (IF DocMode THEN {"html"} ELSE Flow)
   ELSE LET t == st[i] IN
     CASE t \in Transparent -> KidsAt(st, i - 1) \ (IF t = "a" THEN Interactive ELSE IF t = "noscript" THEN {"noscript"} ELSE {})
-      [] t = "template" -> KidsAt(st, i - 1)        \* template contents: what the context allows (4.12.3)
+      [] t = "template" -> KidsAt(st, i - 1) \ {"optgroup"}   \* template contents: what the context allows (4.12.3)
+                                   \* (X11: template contents are not parsed "in select": an omitted </optgroup> is not re-inferred there)
       [] t \in {"div", "li", "td", "dd", "section", "blockquote", "body"} -> Flow
       [] t = "dt" -> Flow \ {"section", "h1"}
       [] t \in {"p", "h1", "span", "b", "i", "em", "pre", "rt"} -> Phrasing
